@@ -245,7 +245,7 @@ class Driver:
             name = f"{rng.derive(cls, json.dumps(mspec, sort_keys=True)) % 10**10:010d}.json"
             path = os.path.join(replay_dir, name)
             with open(path, "w") as f:
-                json.dump(replay, f, indent=1, sort_keys=True)
+                json.dump(replay, f, indent=1)  # never sort keys: map order inside the spec (documents!) is significant
             ok = confirm_replay(c.PROP, path)
             if not ok:
                 self.harness_errors.append(f"replay {path} did not reproduce class {cls} in a fresh interpreter")
